@@ -159,14 +159,25 @@ func c03R1(c *Ctx) {
 		header := dfs.Header.Instrs[0]
 		popped := ResultOf(pop, 0)
 		okv := ResultOf(pop, 1)
-		if popped == nil || okv == nil {
-			c.Violation(R, fname+"|dfs-loop", pop.Pos(), "a result of Stack.Pop is discarded")
+		if popped == nil {
+			c.Violation(R, fname+"|dfs-loop", pop.Pos(), "the node returned by Stack.Pop is discarded")
 			continue
 		}
-		okEdges, _ := BoolTests(F, Aliases(okv))
-		if len(okEdges) == 0 {
-			c.Undecided(R, fname+"|dfs-loop", pop.Pos(), "the ok result of Stack.Pop is not tested by an If")
-			continue
+		// program points right after a successful Pop: the ok==true edges, or (when the
+		// emptiness is tested before popping) the instruction after the Pop itself
+		type c03Start struct {
+			b *ssa.BasicBlock
+			i int
+		}
+		var starts []c03Start
+		if okv != nil {
+			okEdges, _ := BoolTests(F, Aliases(okv))
+			for _, e := range okEdges {
+				starts = append(starts, c03Start{e.To, 0})
+			}
+		}
+		if len(starts) == 0 {
+			starts = append(starts, c03Start{pop.Block(), instrIndex(pop.(ssa.Instruction)) + 1})
 		}
 		// values denoting the popped NodeInfo / its fields
 		isCurrent := func(base ssa.Value) bool {
@@ -293,8 +304,8 @@ func c03R1(c *Ctx) {
 		_ = zeroE
 		// (1a) every iteration that popped a node records it, expands it (non-empty predecessors), or skips it as visited
 		bad := false
-		for _, e := range okEdges {
-			if reach(e.To, 0, header, newCut().Instr(records...).Edges(nonZeroE...).Edges(visitedTrue...)) {
+		for _, st := range starts {
+			if reach(st.b, st.i, header, newCut().Instr(records...).Edges(nonZeroE...).Edges(visitedTrue...)) {
 				bad = true
 			}
 		}
@@ -621,10 +632,39 @@ func c03R2(c *Ctx) {
 
 // ---------- R3: artifact-type derivation ----------
 
+// c03Sink is one way the artifact type of a descriptor gets fixed: a store
+// into Descriptor.ArtifactType or a returned string, for one alternative of
+// the value (phi edges recorded).
 type c03Sink struct {
-	At   ssa.Instruction // the store / return that fixes the artifact type
-	Kind string          // "AT", "CFG"
-	Base ssa.Value       // decoded struct the value was read from
+	At    ssa.Instruction // the store / return
+	Edges []Edge          // phi edges selecting this alternative
+	Kind  string          // "AT" manifest.artifactType, "CFG" manifest.config.mediaType, "CALL" result of module function G
+	Base  ssa.Value       // decoded struct the value was read from
+	G     *ssa.Function
+}
+
+func (s c03Sink) feasible(k *cut) bool {
+	if !c01Feasible(s.At, k) {
+		return false
+	}
+	for _, e := range s.Edges {
+		if c01MustPassEdge(e, k) {
+			return false
+		}
+	}
+	return true
+}
+
+func (s c03Sink) guarded(c *cut) bool {
+	if MustPass(s.At, c) {
+		return true
+	}
+	for _, e := range s.Edges {
+		if c01MustPassEdge(e, c) {
+			return true
+		}
+	}
+	return false
 }
 
 // c03Classify: v is manifest.artifactType ("AT") or manifest.config.mediaType ("CFG")
@@ -653,21 +693,114 @@ func derefType(t types.Type) types.Type {
 	return t
 }
 
-// c03ReturnSinks: classified result-0 atoms of g.
+type c03Alt struct {
+	Val   ssa.Value
+	Edges []Edge
+}
+
+// c03Alternatives expands v through phis (recording the selecting edges) and
+// loads of scalar cells.
+func c03Alternatives(v ssa.Value) []c03Alt {
+	var out []c03Alt
+	seen := map[ssa.Value]bool{}
+	var rec func(v ssa.Value, edges []Edge, d int)
+	rec = func(v ssa.Value, edges []Edge, d int) {
+		if seen[v] || d > 8 {
+			out = append(out, c03Alt{v, edges})
+			return
+		}
+		seen[v] = true
+		switch u := v.(type) {
+		case *ssa.Phi:
+			for i, e := range u.Edges {
+				rec(e, append(append([]Edge{}, edges...), Edge{u.Block().Preds[i], u.Block()}), d+1)
+			}
+			return
+		case *ssa.UnOp:
+			if a := cellOf(u); a != nil {
+				if _, isStruct := a.Type().(*types.Pointer).Elem().Underlying().(*types.Struct); !isStruct {
+					for _, st := range ReachingStores(a, u) {
+						if st != nil {
+							rec(st.Val, edges, d+1)
+						}
+					}
+					return
+				}
+			}
+		}
+		out = append(out, c03Alt{v, edges})
+	}
+	rec(v, nil, 0)
+	return out
+}
+
+// c03SinkOf classifies one alternative fixed at instruction at.
+func c03SinkOf(at ssa.Instruction, a c03Alt) (c03Sink, bool) {
+	if k, b := c03Classify(a.Val); k != "" {
+		return c03Sink{At: at, Edges: a.Edges, Kind: k, Base: b}, true
+	}
+	var call *ssa.Call
+	switch u := a.Val.(type) {
+	case *ssa.Call:
+		call = u
+	case *ssa.Extract:
+		if cl, ok := u.Tuple.(*ssa.Call); ok && u.Index == 0 {
+			call = cl
+		}
+	}
+	if call != nil {
+		if g := StaticCallee(call); g != nil && inModule(g) && len(g.Blocks) > 0 {
+			if b, ok := g.Signature.Results().At(0).Type().Underlying().(*types.Basic); ok && b.Kind() == types.String {
+				return c03Sink{At: at, Edges: a.Edges, Kind: "CALL", G: g}, true
+			}
+		}
+	}
+	return c03Sink{}, false
+}
+
+// c03ReturnSinks: classified result-0 alternatives of g.
 func c03ReturnSinks(g *ssa.Function) []c03Sink {
 	var out []c03Sink
+	if g.Signature.Results().Len() == 0 {
+		return nil
+	}
 	for _, a := range RetAtoms(g, 0) {
-		k, b := c03Classify(a.Val)
-		if k == "" {
-			continue
-		}
 		var at ssa.Instruction = a.Ret
-		if a.Store != nil {
+		if a.Store != nil && len(a.Edges) == 0 {
 			at = a.Store
 		}
-		out = append(out, c03Sink{At: at, Kind: k, Base: b})
+		if s, ok := c03SinkOf(at, c03Alt{a.Val, a.Edges}); ok {
+			out = append(out, s)
+		}
 	}
 	return out
+}
+
+// c03StoreSinks: classified alternatives stored into Descriptor.ArtifactType in f.
+func c03StoreSinks(f *ssa.Function, descAT *types.Var) []c03Sink {
+	var out []c03Sink
+	AllInstrs(f, func(in ssa.Instruction) {
+		s, ok := in.(*ssa.Store)
+		if !ok {
+			return
+		}
+		p, ok := c01AddrPath(s.Addr)
+		if !ok || p.last() != descAT {
+			return
+		}
+		for _, a := range c03Alternatives(s.Val) {
+			if sk, ok := c03SinkOf(s, a); ok {
+				out = append(out, sk)
+			}
+		}
+	})
+	return out
+}
+
+type c03Verdict struct {
+	handles map[string]bool
+	prefers bool
+	derives bool // has at least one sink that reads a decoded manifest (directly or through a callee)
 }
 
 func c03R3(c *Ctx) {
@@ -683,8 +816,27 @@ func c03R3(c *Ctx) {
 	isMT := func(v ssa.Value) bool { return c01IsFieldValue(v, descMT) }
 	handled := []string{"image-manifest", "image-index", "artifact-manifest"}
 
-	// derive the obligations of one function holding classified sinks
-	checkDeriver := func(X *ssa.Function, sinks []c03Sink) {
+	memo := map[*ssa.Function]*c03Verdict{}
+	// derives: does g (as a string-returning helper) read a decoded manifest?
+	var derives func(g *ssa.Function, d int) bool
+	derives = func(g *ssa.Function, d int) bool {
+		if d > 2 {
+			return false
+		}
+		for _, s := range c03ReturnSinks(g) {
+			if s.Kind != "CALL" || derives(s.G, d+1) {
+				return true
+			}
+		}
+		return false
+	}
+	var eval func(X *ssa.Function, sinks []c03Sink, depth int) *c03Verdict
+	eval = func(X *ssa.Function, sinks []c03Sink, depth int) *c03Verdict {
+		if v, ok := memo[X]; ok {
+			return v
+		}
+		v := &c03Verdict{handles: map[string]bool{}}
+		memo[X] = v
 		xn := c01ClosureKey(X, "artifact-type")
 		tests := c01StrTests(X, isMT)
 		bases := map[ssa.Value]bool{}
@@ -695,32 +847,58 @@ func c03R3(c *Ctx) {
 		}
 		if len(bases) > 1 {
 			c.Undecided(R, xn+"|media-type-dispatch", X.Pos(), "media types of several descriptors are compared in this function; cannot attribute the cases")
-			return
+			return v
+		}
+		sub := func(g *ssa.Function) *c03Verdict {
+			if depth > 2 {
+				return &c03Verdict{handles: map[string]bool{}}
+			}
+			return eval(g, c03ReturnSinks(g), depth+1)
 		}
 		for _, kind := range handled {
 			k := c01CaseCut(tests, kinds.ByKind[kind])
 			found := false
 			for _, s := range sinks {
-				if (s.Kind == "AT" || kind == "image-manifest") && c01Feasible(s.At, k) {
+				if !s.feasible(k) {
+					continue
+				}
+				switch {
+				case s.Kind == "AT", s.Kind == "CFG" && kind == "image-manifest":
 					found = true // (for image manifests the preference of artifactType is its own obligation below)
+				case s.Kind == "CALL" && sub(s.G).handles[kind]:
+					found = true
 				}
 			}
+			v.handles[kind] = found
 			c.Check(R, xn+"|handles-"+kind, X.Pos(), found,
 				ifelse(found, "for a "+kind+" the artifact type is read from the decoded manifest",
 					"for a "+kind+" no artifact type is derived from the manifest's artifactType member: such a referrer is matched differently depending on whether the source supplied the descriptor field (D3b)"))
 		}
 		// image manifest: artifactType preferred, config.mediaType only as fallback when empty
 		k := c01CaseCut(tests, kinds.ByKind["image-manifest"])
-		var ats, cfgs []c03Sink
+		var ats, cfgs, calls []c03Sink
 		for _, s := range sinks {
-			if !c01Feasible(s.At, k) {
+			if !s.feasible(k) {
 				continue
 			}
-			if s.Kind == "AT" {
+			switch s.Kind {
+			case "AT":
 				ats = append(ats, s)
-			} else {
+			case "CFG":
 				cfgs = append(cfgs, s)
+			default:
+				calls = append(calls, s)
 			}
+		}
+		callsOK := true
+		for _, s := range calls {
+			if !sub(s.G).prefers {
+				callsOK = false
+			}
+		}
+		if len(ats) == 0 && len(cfgs) == 0 && len(calls) > 0 {
+			v.prefers = callsOK // delegated entirely; the callee carries the obligation
+			return v
 		}
 		ok, detail := true, "artifactType is taken; config.mediaType only on the edge where artifactType is empty"
 		pos := X.Pos()
@@ -764,107 +942,59 @@ func c03R3(c *Ctx) {
 				}
 				return true
 			})
-			if len(emptyE) == 0 || !MustPass(s.At, c01CutUnion(k, newCut().Edges(emptyE...))) {
+			if len(emptyE) == 0 || !s.guarded(c01CutUnion(k, newCut().Edges(emptyE...))) {
 				ok, detail, pos = false, "config.mediaType can replace a non-empty artifactType: the fallback is not confined to the edge where the manifest's artifactType is empty", s.At.Pos()
 			}
 		}
+		if ok && !callsOK {
+			ok, detail = false, "a helper called for image manifests does not prefer artifactType"
+		}
+		v.prefers = ok
 		c.Check(R, xn+"|image-manifest-prefers-ArtifactType", pos, ok, detail)
+		return v
 	}
 
-	type deriver struct {
-		fn    *ssa.Function
-		sinks []c03Sink
-	}
-	direct := map[*ssa.Function]*deriver{}
-	viaCall := map[*ssa.Function]map[*ssa.Function][]ssa.CallInstruction{} // caller -> callee -> calls
-	var order []*ssa.Function
+	// discovery: every module function storing a manifest-derived value into Descriptor.ArtifactType
+	have := map[string]bool{}
+	var referrersSeen, rootVia bool
 	for _, f := range c01ModuleFuncs(c.P) {
-		AllInstrs(f, func(in ssa.Instruction) {
-			s, ok := in.(*ssa.Store)
-			if !ok {
-				return
+		sinks := c03StoreSinks(f, descAT)
+		isDeriver, via := false, false
+		for _, s := range sinks {
+			if s.Kind != "CALL" {
+				isDeriver = true
+			} else if derives(s.G, 0) {
+				isDeriver, via = true, true
 			}
-			p, ok := c01AddrPath(s.Addr)
-			if !ok || p.last() != descAT {
-				return
+		}
+		if !isDeriver {
+			continue
+		}
+		// keep only the sinks that read a manifest
+		var kept []c03Sink
+		for _, s := range sinks {
+			if s.Kind != "CALL" || derives(s.G, 0) {
+				kept = append(kept, s)
 			}
-			for _, r := range Roots(s.Val) {
-				if k, b := c03Classify(r); k != "" {
-					d := direct[f]
-					if d == nil {
-						d = &deriver{fn: f}
-						direct[f] = d
-						order = append(order, f)
-					}
-					d.sinks = append(d.sinks, c03Sink{At: s, Kind: k, Base: b})
-					continue
-				}
-				if ex, ok := r.(*ssa.Extract); ok && ex.Index == 0 {
-					if call, ok := ex.Tuple.(*ssa.Call); ok {
-						if g := StaticCallee(call); g != nil && inModule(g) && len(c03ReturnSinks(g)) > 0 {
-							if viaCall[f] == nil {
-								viaCall[f] = map[*ssa.Function][]ssa.CallInstruction{}
-								order = append(order, f)
-							}
-							viaCall[f][g] = append(viaCall[f][g], call)
-						}
-					}
-				}
-			}
-		})
+		}
+		have[fnPkgPath(f)] = true
+		if f == c.P.Fn("registry", "Referrers") {
+			referrersSeen = true
+		}
+		if via && fnPkgPath(f) == Mod {
+			rootVia = true
+		}
+		eval(f, kept, 0)
 	}
 	// frozen sibling table (by role)
-	have := map[string]bool{}
-	for f := range direct {
-		have[fnPkgPath(f)] = true
-	}
-	if !have[pkgPath("registry")] || direct[c.P.Fn("registry", "Referrers")] == nil {
+	if !referrersSeen {
 		c.LostAnchor(R, "~/registry.Referrers as a deriver of Descriptor.ArtifactType from decoded manifests")
 	}
 	if !have[pkgPath("registry/remote")] {
 		c.LostAnchor(R, "deriver of Descriptor.ArtifactType from a pushed manifest in ~/registry/remote (referrers index update)")
 	}
-	rootVia := false
-	for f := range viaCall {
-		if fnPkgPath(f) == Mod {
-			rootVia = true
-		}
-	}
 	if !rootVia {
 		c.LostAnchor(R, "FilterArtifactType's fetch path (closure in package ~ storing a fetched artifact type into Descriptor.ArtifactType)")
-	}
-	sort.SliceStable(order, func(i, j int) bool { return order[i].String() < order[j].String() })
-	doneG := map[*ssa.Function]bool{}
-	for _, f := range order {
-		if d := direct[f]; d != nil {
-			checkDeriver(f, d.sinks)
-		}
-		var gs []*ssa.Function
-		for g := range viaCall[f] {
-			gs = append(gs, g)
-		}
-		sort.Slice(gs, func(i, j int) bool { return gs[i].String() < gs[j].String() })
-		for _, g := range gs {
-			if !doneG[g] {
-				doneG[g] = true
-				checkDeriver(g, c03ReturnSinks(g))
-			}
-			// the caller must reach the fetch for every handled kind
-			tests := c01StrTests(f, isMT)
-			fnKey := c01ClosureKey(f, "fetch-missing-artifact-type")
-			for _, kind := range handled {
-				k := c01CaseCut(tests, kinds.ByKind[kind])
-				found := false
-				for _, call := range viaCall[f][g] {
-					if c01Feasible(call.(ssa.Instruction), k) {
-						found = true
-					}
-				}
-				c.Check(R, fnKey+"|fetches-for-"+kind, viaCall[f][g][0].Pos(), found,
-					ifelse(found, "a "+kind+" predecessor without artifactType on its descriptor has it fetched from the manifest",
-						"a "+kind+" predecessor whose descriptor lacks artifactType is never fetched: it is filtered on an empty artifact type when the source is a plain store but on its real type when the source lists referrers (D3b)"))
-			}
-		}
 	}
 }
 
@@ -943,7 +1073,7 @@ var c03Mutants = []Mutant{
 		Old: "\t\t\tnode.ArtifactType = index.ArtifactType\n", New: "", Expect: "C03.R3"},
 	{Name: "filter-skips-artifact-manifest", File: "extendedcopy.go",
 		Old: "\t\t\t\tcase spec.MediaTypeArtifactManifest, ocispec.MediaTypeImageManifest:\n\t\t\t\t\tartifactType, err := fetchArtifactType(ctx, src, p)",
-		New: "\t\t\t\tcase ocispec.MediaTypeImageManifest:\n\t\t\t\t\tartifactType, err := fetchArtifactType(ctx, src, p)", Expect: "C03.R3.artifact-type-derivation|(*~.ExtendedCopyGraphOptions).FilterArtifactType$fetch-missing-artifact-type|fetches-for-artifact-manifest"},
+		New: "\t\t\t\tcase ocispec.MediaTypeImageManifest:\n\t\t\t\t\tartifactType, err := fetchArtifactType(ctx, src, p)", Expect: "C03.R3.artifact-type-derivation|(*~.ExtendedCopyGraphOptions).FilterArtifactType$artifact-type|handles-artifact-manifest"},
 	{Name: "root-not-recorded-when-no-predecessors", File: "extendedcopy.go",
 		Old: "\t\tif len(predecessors) == 0 {\n\t\t\taddRoot(currentKey, currentNode)\n\t\t\tcontinue\n\t\t}", New: "\t\tif len(predecessors) == 0 {\n\t\t\tcontinue\n\t\t}", Expect: "C03.R1"},
 	{Name: "depth-cutoff-off-by-one", File: "extendedcopy.go",
